@@ -127,12 +127,12 @@ Proof. intros f b t H. cbn [dec_type]. cbv zeta. rewrite H. reflexivity. Qed.
 Theorem dec_type_depth_two : forall f bs, dec_type (S (S f)) bs = dec_type 2 bs.
 Proof.
   intros f bs. destruct bs as [|b r]; [reflexivity|].
+  change (dec_type 2 (b :: r)) with (dec_type (S 1) (b :: r)).
+  remember (S f) as g eqn:Eg. remember 1%nat as one eqn:E1.
   cbn [dec_type]. cbv zeta. destruct (Z.of_N b / 16 =? 15); [|reflexivity].
-  destruct r as [|b2 t]; [destruct f; reflexivity|].
+  destruct r as [|b2 t]; [subst; reflexivity|].
   destruct (Z.of_N b2 / 16 =? 15) eqn:E; [reflexivity|].
-  change (match dec_type (S f) (b2 :: t) with Some p => _ | None => _ end)
-    with (match dec_type (S f) (b2 :: t) with Some p => _ | None => _ end).
-  rewrite (dec_type_inner f b2 t E). reflexivity.
+  subst g one. rewrite (dec_type_inner f b2 t E). reflexivity.
 Qed.
 
 Theorem read_type_depth_two : forall bs, read_type bs = dec_type 2 bs \/ bs = [].
